@@ -13,7 +13,7 @@
 (*  kind "vcg" : imp.vcg_norm on Valid pre prog post:                                                      *)
 (*     VcgChecked : checker-accepted theorem  A1 --> ... --> An --> Valid pre prog post                     *)
 (*     VcgSound   : as VcSound with the conditions A1..An                                                   *)
-(* Divergences (informational): the code's conditions differ in meaning from the reference generator's,     *)
+(* Divergences (informational): the code's conditions differ (up to NormB) from the reference generator's,  *)
 (* the printed program re-parses to a program with another behaviour, a second compute_wp on the same       *)
 (* object changes the list of conditions.                                                                   *)
 EXTENDS C20_HoareSem, TraceLib
@@ -22,7 +22,7 @@ IBoxS == BoxOf(IntLo, IntHi)
 NBoxS == BoxOf(NatLo, NatHi)
 SameRun(a, b) == a[1] = b[1] /\ (a[1] = "ok" => a[2] = b[2])
 SameSeq(a, b) == Len(a) = Len(b) /\ \A i \in 1..Len(a) : a[i] = b[i]
-Meanings(S, box) == { TT(b, box) : b \in S } \ {box}
+Norms(S) == { NormB(b) : b \in S }
 
 \* ------------------------------------------------------------------------------------------- soundness core
 \* [hold: the hypothesis "all conditions hold" is true and decided; term: some execution terminates; cex]
@@ -42,11 +42,11 @@ ComVerdict(e) ==
   LET ok == ComWf(e) /\ ComSafe(e)
       j == IF ok THEN Judge(ComTrees(e), e.pre, e.prog, e.post, IBoxS, IntLo, IntHi, TRUE) ELSE [hold |-> FALSE, nt |-> FALSE, cex |-> FALSE]
       n == Len(e.vcs)
-      pp == ok /\ \E i \in 1..n : e.vcs[i].rok = "ok" /\ OtherOK(e.vcs[i].r) /\ TT(e.vcs[i].r, IBoxS) # TT(e.vcs[i].t, IBoxS)
+      pp == ok /\ \E i \in 1..n : e.vcs[i].rok = "ok" /\ OtherOK(e.vcs[i].r) /\ ~SameMeaning(e.vcs[i].r, e.vcs[i].t, IBoxS)
       pf == e.outcome = "ok" /\ \E i \in 1..n : e.vcs[i].rok # "ok"
-      hm == ok /\ \E i \in 1..n : OtherOK(e.vcs[i].h) /\ TT(e.vcs[i].h, IBoxS) # TT(e.vcs[i].t, IBoxS)
-      dref == ok /\ Meanings({ e.vcs[i].t : i \in 1..n }, IBoxS) # Meanings(RefVCs(e.pre, e.prog, e.post), IBoxS)
-      drt == ok /\ (e.rtok # "ok" \/ ~(WfC(e.rt) /\ SafeC(e.rt, VCap)) \/ \E s \in IBoxS : ~SameRun(Run(e.rt, s), Run(e.prog, s)))
+      hm == ok /\ \E i \in 1..n : OtherOK(e.vcs[i].h) /\ ~SameMeaning(e.vcs[i].h, e.vcs[i].t, IBoxS)
+      dref == ok /\ e.mode = "fresh" /\ Norms({ e.vcs[i].t : i \in 1..n }) # Norms(RefVCs(e.pre, e.prog, e.post))
+      drt == ok /\ (e.rtok # "ok" \/ (e.rt # e.prog /\ (~(WfC(e.rt) /\ SafeC(e.rt, VCap)) \/ \E s \in IBoxS : ~SameRun(Run(e.rt, s), Run(e.prog, s)))))
       dtw == ok /\ e.mode = "twice" /\ ~SameSeq(e.first, ComTrees(e))
   IN [fails |-> (IF j.cex THEN {"VcSound"} ELSE {}) \cup (IF pp THEN {"PrintParse"} ELSE {})
                 \cup (IF pf THEN {"ParseFail"} ELSE {}) \cup (IF hm THEN {"HolMeaning"} ELSE {}),
@@ -81,7 +81,7 @@ VcgVerdict(e) ==
       j == IF ok THEN Judge(e.vcs, e.pre, e.prog, e.post, NBoxS, NatLo, NatHi, FALSE) ELSE [hold |-> FALSE, nt |-> FALSE, cex |-> FALSE]
       chk == ran /\ ~(/\ e.chk = "accepted" /\ e.chk_hyps = 0 /\ e.hyps = 0 /\ SameSeq(e.chk_vcs, e.vcs) /\ e.chk_concl = e.concl
                       /\ e.concl = <<e.pre, e.prog, e.post>>)
-      dref == ok /\ Meanings({ e.vcs[i] : i \in 1..n }, NBoxS) # Meanings(RefVCs(e.pre, e.prog, e.post), NBoxS)
+      dref == ok /\ Norms({ e.vcs[i] : i \in 1..n }) # Norms(RefVCs(e.pre, e.prog, e.post))
   IN [fails |-> (IF chk THEN {"VcgChecked"} ELSE {}) \cup (IF j.cex THEN {"VcgSound"} ELSE {}),
       nt |-> j.nt, dv |-> dref \/ e.prog # e.vprog]
 
